@@ -280,6 +280,7 @@ func (vm *VM) step() error {
 
 	opcode := Opcode(vm.code[vm.pc])
 	vm.pc++
+	verifStep(vm, opcode)
 
 	return vm.executeInstruction(opcode)
 }
